@@ -2,7 +2,7 @@
    template instantiation are executed by the correspondence runs, not modelled). *)
 From Coq Require Import List ZArith Bool.
 Import ListNotations.
-From DV Require Import Utf8.Model Cpp.Model Cpp.Proofs.
+From DV Require Import Utf8.Model Cpp.Model Cpp.Proofs Cpp.Ops.
 
 Theorem C02_to_cpp_to_c : forall t x, well_typed t x = true -> to_cpp t (to_c t x) = x.
 Proof. exact to_cpp_to_c. Qed.
@@ -23,3 +23,29 @@ Theorem C02_invalid_utf8_never_reaches_rust : forall bytes,
   (wf_utf8 bytes -> call_with_str bytes = ReachesRust bytes).
 Proof. exact invalid_utf8_never_reaches_rust. Qed.
 Print Assumptions C02_invalid_utf8_never_reaches_rust.
+
+(* the six relational operators synthesised from a `comparison` method describe one trichotomy of its result ... *)
+Theorem C02_relational_trichotomy : forall c : Z,
+  match rels_of c with
+  | [eq; ne; le; ge; lt; gt] =>
+      ne = negb eq /\ le = negb gt /\ ge = negb lt /\ le = (lt || eq) /\ ge = (gt || eq) /\
+      (if lt then negb eq && negb gt else if eq then negb gt else gt) = true
+  | _ => False
+  end.
+Proof. exact rels_trichotomy. Qed.
+Print Assumptions C02_relational_trichotomy.
+
+(* ... and swapping the operands of an antisymmetric comparison mirrors them *)
+Theorem C02_relational_swap : forall c : Z,
+  match rels_of c, rels_of (- c) with
+  | [eq; ne; le; ge; lt; gt], [eq'; ne'; le'; ge'; lt'; gt'] => eq' = eq /\ ne' = ne /\ le' = ge /\ ge' = le /\ lt' = gt /\ gt' = lt
+  | _, _ => False
+  end.
+Proof. exact rels_swap. Qed.
+Print Assumptions C02_relational_swap.
+
+(* chained compound assignments apply the Rust method left to right with `this` as the left operand *)
+Theorem C02_compound_chain : forall (T : Type) (op : T -> T -> T) a bs b,
+  compound_chain T op a (bs ++ [b]) = op (compound_chain T op a bs) b.
+Proof. exact compound_chain_snoc. Qed.
+Print Assumptions C02_compound_chain.
